@@ -6,7 +6,9 @@ import (
 	"net"
 	"net/netip"
 	"strings"
+	"time"
 
+	"github.com/AdguardTeam/AdGuardDNS/internal/cmd"
 	"github.com/AdguardTeam/AdGuardDNS/internal/dnssvc"
 	"github.com/AdguardTeam/AdGuardDNS/internal/geoip"
 	"github.com/AdguardTeam/AdGuardDNS/verifh/hlib"
@@ -106,13 +108,17 @@ func stackReq(q reqSpec) (req *dns.Msg, remote netip.Addr) {
 // process-wide Prometheus registry, so only one stack with the simple cache
 // can exist per process.
 func newStack(c caseCfg, u *universe) *stack.Stack {
-	cc := &dnssvc.CacheConfig{MinTTL: c.minTTL, ECSCount: 256, NoECSCount: 256, Type: dnssvc.CacheTypeNone,
-		OverrideCacheTTL: c.override}
+	cc := &dnssvc.CacheConfig{MinTTL: c.mwMinTTL(), ECSCount: 256, NoECSCount: 256, Type: dnssvc.CacheTypeNone,
+		OverrideCacheTTL: c.mwOverride()}
 	switch c.kind {
 	case 's':
 		cc.Type = dnssvc.CacheTypeSimple
 	case 'e':
 		cc.Type = dnssvc.CacheTypeECS
+	}
+	if c.wired != nil && kindOfType(c.wired.Type) == kindOfType(cc.Type) {
+		// The configuration exactly as the production code produced it.
+		cc = c.wired
 	}
 
 	return stack.New(&stack.Config{Upstream: u, Cache: cc, GeoData: stackGeoData, GeoSubnet: stackGeoSubnet})
@@ -148,11 +154,21 @@ func stackCampaign(o *hlib.Opts, r *hlib.Result) {
 	simpleSeed := rng.Uint64()
 	simpleU := &universe{seed: simpleSeed}
 	simpleRefU := &universe{seed: simpleSeed}
-	simpleWarm := newStack(caseCfg{kind: 's'}, simpleU)
+	// Its configuration comes from a configuration file through the production
+	// code (round 4): the override is off, so the hour must not show anywhere.
+	simpleFile := yamlCache{typ: "simple", size: 256, ecsSize: 0, min: "1h", enabled: false}
+	simpleConf, cerr := cmd.VerifC04CacheConfig([]byte(simpleFile.text()))
+	if cerr != nil || simpleConf.Type != dnssvc.CacheTypeSimple {
+		r.Violate("wiring:validation", fmt.Sprintf("simple cache: %v %+v", cerr, simpleConf), map[string]any{"config_file": simpleFile.text()})
+
+		return
+	}
+	simpleCfg := caseCfg{kind: 's', minTTL: time.Hour, wired: simpleConf}
+	simpleWarm := newStack(simpleCfg, simpleU)
 	simpleRef := newStack(caseCfg{}, simpleRefU)
 	simpleSeen := map[string][]reqSpec{}
 	for i := 0; i < n; i++ {
-		c := caseCfg{kind: 's'}
+		c := simpleCfg
 		useed := simpleSeed
 		u, warm, seen := simpleU, simpleWarm, simpleSeen
 		if i%2 == 1 {
